@@ -23,11 +23,14 @@ use vcommon::*;
 use arrow_array::{ArrayRef, Int32Array, RecordBatch, StringArray};
 use arrow_schema::{DataType, Field, Schema};
 
-fn policy(p: &str) -> PageIndexPolicy {
+/// (column index policy, offset index policy); 3 and 4 set the two policies separately
+fn policies(p: &str) -> (PageIndexPolicy, PageIndexPolicy) {
     match p {
-        "0" => PageIndexPolicy::Skip,
-        "1" => PageIndexPolicy::Optional,
-        _ => PageIndexPolicy::Required,
+        "0" => (PageIndexPolicy::Skip, PageIndexPolicy::Skip),
+        "1" => (PageIndexPolicy::Optional, PageIndexPolicy::Optional),
+        "3" => (PageIndexPolicy::Required, PageIndexPolicy::Skip),
+        "4" => (PageIndexPolicy::Skip, PageIndexPolicy::Required),
+        _ => (PageIndexPolicy::Required, PageIndexPolicy::Required),
     }
 }
 
@@ -68,7 +71,7 @@ fn push_run(pol: &str, file: &Bytes, sched: &Sched) -> Out {
     let r = std::panic::catch_unwind(std::panic::AssertUnwindSafe(|| {
         let len = file.len() as u64;
         let mut d = match ParquetMetaDataPushDecoder::try_new(len) {
-            Ok(d) => d.with_page_index_policy(policy(pol)),
+            Ok(d) => d.with_column_index_policy(policies(pol).0).with_offset_index_policy(policies(pol).1),
             Err(_) => return Out::Err,
         };
         let slice = |r: &Range<u64>| file.slice(r.start as usize..r.end as usize);
@@ -137,12 +140,84 @@ fn push_run(pol: &str, file: &Bytes, sched: &Sched) -> Out {
 
 fn one_shot(pol: &str, file: &Bytes) -> Out {
     let r = std::panic::catch_unwind(std::panic::AssertUnwindSafe(|| {
-        match ParquetMetaDataReader::new().with_page_index_policy(policy(pol)).parse_and_finish(file) {
+        match ParquetMetaDataReader::new()
+            .with_column_index_policy(policies(pol).0)
+            .with_offset_index_policy(policies(pol).1)
+            .parse_and_finish(file)
+        {
             Ok(m) => Out::Meta(Box::new(m)),
             Err(_) => Out::Err,
         }
     }));
     r.unwrap_or(Out::Panic)
+}
+
+/// other entry points and histories of the push decoder, checked on every case
+fn push_histories(pol: &str, file: &Bytes, reference: &Out, fails: &mut Vec<(String, String)>) {
+    let len = file.len() as u64;
+    let slice = |r: &Range<u64>| file.slice(r.start as usize..r.end as usize);
+    let exact_loop = |mut d: ParquetMetaDataPushDecoder| -> (Out, Option<ParquetMetaDataPushDecoder>) {
+        for _ in 0..64 {
+            match d.try_decode() {
+                Ok(DecodeResult::Data(m)) => return (Out::Meta(Box::new(m)), Some(d)),
+                Ok(DecodeResult::NeedsData(ranges)) => {
+                    for r in ranges {
+                        if r.end > len || r.start > r.end {
+                            return (Out::Beyond, None);
+                        }
+                        if d.push_range(r.clone(), slice(&r)).is_err() {
+                            return (Out::Err, None);
+                        }
+                    }
+                }
+                Ok(DecodeResult::Finished) => return (Out::Err, None),
+                Err(_) => return (Out::Err, None),
+            }
+        }
+        (Out::Stuck, None)
+    };
+    let r = std::panic::catch_unwind(std::panic::AssertUnwindSafe(|| {
+        let mut local: Vec<(String, String)> = vec![];
+        // (1) prefetch everything, clear_all_ranges, then answer exactly
+        if let Ok(d) = ParquetMetaDataPushDecoder::try_new(len) {
+            let mut d = d.with_column_index_policy(policies(pol).0).with_offset_index_policy(policies(pol).1);
+            if len > 0 && d.push_range(0..len, file.clone()).is_ok() {
+                d.clear_all_ranges();
+                let (o, dd) = exact_loop(d);
+                if o != *reference {
+                    local.push((format!("clear_all_ranges then exact {} != exact {}", o.short(), reference.short()), "oracle:chunk-dep".into()));
+                }
+                // (2) after Data: Finished, and pushing is rejected
+                if let (Out::Meta(_), Some(mut dd)) = (&o, dd) {
+                    if len > 0 && dd.push_range(0..1, file.slice(0..1)).is_ok() {
+                        local.push(("push_range accepted after decoding finished".into(), "oracle:protocol".into()));
+                    }
+                    if !matches!(dd.try_decode(), Ok(DecodeResult::Finished)) {
+                        local.push(("try_decode after Data is not Finished".into(), "oracle:protocol".into()));
+                    }
+                }
+            }
+        }
+        // (3) second entry point: metadata decoded without page index, then a decoder created with
+        // try_new_with_metadata loads only the page index
+        if let Out::Meta(_) = reference {
+            if let Ok(d0) = ParquetMetaDataPushDecoder::try_new(len) {
+                if let (Out::Meta(m0), _) = exact_loop(d0.with_page_index_policy(PageIndexPolicy::Skip)) {
+                    if let Ok(d1) = ParquetMetaDataPushDecoder::try_new_with_metadata(len, *m0) {
+                        let (o, _) = exact_loop(d1.with_column_index_policy(policies(pol).0).with_offset_index_policy(policies(pol).1));
+                        if o != *reference {
+                            local.push((format!("try_new_with_metadata {} != full decode {}", o.short(), reference.short()), "oracle:two-entry".into()));
+                        }
+                    }
+                }
+            }
+        }
+        local
+    }));
+    match r {
+        Ok(l) => fails.extend(l),
+        Err(_) => fails.push(("PANIC in push decoder history".into(), "oracle:panic".into())),
+    }
 }
 
 fn parse_sched(s: &str) -> Sched {
@@ -231,6 +306,9 @@ fn run_case(line: &str) -> (String, Vec<(String, String)>) {
             }
         }
     }
+    if !matches!(reference, Out::Panic) {
+        push_histories(pol, &file, &reference, &mut fails);
+    }
     let os = one_shot(pol, &file);
     if os != reference {
         // structural classification: the footer's metadata length exceeds what the file can hold.
@@ -294,7 +372,7 @@ fn gen_case(rng: &mut Rng) -> (String, String) {
         _ => {}
     }
     let n = buf.len();
-    let pol = rng.below(3).to_string();
+    let pol = rng.below(5).to_string();
     tags.push(format!("policy:{}", pol));
     let sched = match rng.below(5) {
         0 => "x".to_string(),
